@@ -205,7 +205,7 @@ def LARGE(arr, n):
     """ 
     The nth largest value in an array.
     """
-    n = utils.parse_number(n)
+    n = utils.whole(utils.parse_number(n))
     if isinstance(n, error.XLError):
         return n
     # count the items, not the rows: the array may be a grid or a column of one-cell rows
